@@ -1,4 +1,5 @@
 import DicomModel.Lemmas.Collector
+import DicomModel.Lemmas.LazyEager
 import DicomModel.Lemmas.ReadUntil
 /-
 C06 — the lazy reader and the collector agree with the eager reader.
@@ -10,6 +11,38 @@ read_until / read_to), next to the eager reader `Model/Reader.lean` and `Model/B
 -/
 namespace Dicom.C06
 open Dicom.Coll6
+
+/-! ### lazy reader = eager reader -/
+open Dicom.LE in
+/-- **`lazy_eq_eager`** — for EVERY byte string (no validity assumption), every transfer syntax and
+dictionary: run the eager reader (`readTokens`, the run `read_dataset`/`open_file` consume) and the lazy
+reader with every token materialised (`advance` + `into_owned`). Unless the eager run reaches one of the
+three places where the two readers differ BY DESIGN (`LE.Anom`: an item delimitation item outside any
+sequence — eager ignores it, lazy reports `ItemEnd`; the input ending inside a pixel data sequence — eager
+ends gracefully, lazy reports the error; an offset table item that is cut short or whose length is not a
+multiple of 4), the two runs have the same number of tokens, every token is the same (an `OffsetTable` of the
+eager reader is the `ItemValue` of the same bytes), and they end the same way (end of data, or corresponding
+errors; where the eager reader reports `UnexpectedItemHeader` the lazy reader panics in `expect`).
+Proved as a lock-step simulation on the shared state fields (`LE.step_sim`), then by induction on the run. -/
+theorem lazy_eq_eager (ts : Syntax) (dict : Tag → Option VR) (bs : Bytes) (fuel : Nat)
+    (h : (eagerRunA fuel (RState.new ts dict bs)).2.2 = false) :
+    readTokens fuel (RState.new ts dict bs) =
+      ((eagerRunA fuel (RState.new ts dict bs)).1, (eagerRunA fuel (RState.new ts dict bs)).2.1) ∧
+    ToksRel (readTokens fuel (RState.new ts dict bs)).1 (lazyTokens fuel (LState.new ts dict bs)).1 ∧
+    EndRel (readTokens fuel (RState.new ts dict bs)).2 (lazyTokens fuel (LState.new ts dict bs)).2 := by
+  have h1 := eagerRunA_eq fuel _ h
+  have h2 := lazy_run_eq_eager_run fuel _ h
+  refine ⟨h1, ?_, ?_⟩
+  · rw [h1]; exact h2.1
+  · rw [h1]; exact h2.2
+
+/-- the designed differences are real: an item delimitation item outside any sequence (Explicit VR LE) is
+ignored by the eager reader and reported as `ItemEnd` by the lazy one, which then fails -/
+theorem stray_delimiter_differs :
+    readTokens 4 (RState.new .explicitLE (fun _ => none) [0xFE, 0xFF, 0x0D, 0xE0, 0, 0, 0, 0]) = ([], none) ∧
+    lazyTokens 4 (LState.new .explicitLE (fun _ => none) [0xFE, 0xFF, 0x0D, 0xE0, 0, 0, 0, 0]) =
+      ([.itemEnd], some (.err .eof)) := by
+  constructor <;> decide +kernel
 
 /-! ### collector portions -/
 
@@ -134,5 +167,75 @@ theorem read_until_wins (stop tag : Tag) : stopAt (some stop) (some stop) tag = 
       have : Tag.le stop tag = true := by rw [le_iff]; omega
       rw [this] at h; cases h
   · simp
+
+/-! ### where the collector falsifies the statement (recorded findings): witnesses on the model
+
+`fragments_one_by_one` and "collector = whole file" do NOT hold for the unchanged code; the three
+counterexamples found by the correspondence run, replayed on the models (the models reproduce the
+implementation on every generated case). -/
+
+/-- tokens of the elements a read returned (comparison form) -/
+def elemsTokens (r : Except CErr (List Elem × Coll)) : Option (List Token) :=
+  match r with
+  | .ok (es, _) => some (elemsOfList es).tokens
+  | .error _ => none
+
+def wholeTokens (r : Except RdErr Elems) : Option (List Token) :=
+  match r with
+  | .ok es => some es.tokens
+  | .error _ => none
+
+/-- Explicit VR LE: Pixel Data, offset table [0], one zero-length fragment -/
+def witnessZeroFragment : Bytes :=
+  [0xe0, 0x7f, 0x10, 0x00, 0x4f, 0x42, 0, 0, 0xff, 0xff, 0xff, 0xff,
+   0xfe, 0xff, 0x00, 0xe0, 4, 0, 0, 0, 0, 0, 0, 0,
+   0xfe, 0xff, 0x00, 0xe0, 0, 0, 0, 0,
+   0xfe, 0xff, 0xdd, 0xe0, 0, 0, 0, 0]
+
+/-- finding `collector-drops-zero-length-fragment`: the whole-file read keeps the empty fragment, the
+collector loses it -/
+theorem collector_drops_zero_length_fragment_witness :
+    wholeTokens (readDataset .explicitLE (fun _ => none) witnessZeroFragment) =
+      some (Elems.tokens (.cons (.pix [0] [[]]) .nil)) ∧
+    elemsTokens ((Coll.new .explicitLE (fun _ => none) witnessZeroFragment).readDatasetToEnd 42) =
+      some (Elems.tokens (.cons (.pix [0] []) .nil)) := by
+  constructor <;> decide +kernel
+
+/-- Explicit VR LE: Pixel Data, EMPTY offset table, one fragment 01 02 03 04 -/
+def witnessEmptyTable : Bytes :=
+  [0xe0, 0x7f, 0x10, 0x00, 0x4f, 0x42, 0, 0, 0xff, 0xff, 0xff, 0xff,
+   0xfe, 0xff, 0x00, 0xe0, 0, 0, 0, 0,
+   0xfe, 0xff, 0x00, 0xe0, 4, 0, 0, 0, 1, 2, 3, 4,
+   0xfe, 0xff, 0xdd, 0xe0, 0, 0, 0, 0]
+
+/-- finding `collector-empty-offset-table-takes-first-fragment` -/
+theorem collector_empty_offset_table_witness :
+    wholeTokens (readDataset .explicitLE (fun _ => none) witnessEmptyTable) =
+      some (Elems.tokens (.cons (.pix [] [[1, 2, 3, 4]]) .nil)) ∧
+    elemsTokens ((Coll.new .explicitLE (fun _ => none) witnessEmptyTable).readDatasetToEnd 42) =
+      some (Elems.tokens (.cons (.pix [67305985] []) .nil)) := by
+  constructor <;> decide +kernel
+
+/-- Explicit VR LE: Pixel Data (empty table, fragment 01 02) followed by (FFFC,FFFC) OB 09 09 -/
+def witnessTrailing : Bytes :=
+  [0xe0, 0x7f, 0x10, 0x00, 0x4f, 0x42, 0, 0, 0xff, 0xff, 0xff, 0xff,
+   0xfe, 0xff, 0x00, 0xe0, 0, 0, 0, 0,
+   0xfe, 0xff, 0x00, 0xe0, 2, 0, 0, 0, 1, 2,
+   0xfe, 0xff, 0xdd, 0xe0, 0, 0, 0, 0,
+   0xfc, 0xff, 0xfc, 0xff, 0x4f, 0x42, 0, 0, 2, 0, 0, 0, 9, 9]
+
+/-- `read_next_fragment` called `n` times: the results -/
+def fragmentCalls : Nat → Coll → List (Option (Nat × Bytes))
+  | 0, _ => []
+  | n + 1, c =>
+    match c.readNextFragment 64 with
+    | .ok (r, c') => r :: fragmentCalls n c'
+    | .error _ => []
+
+/-- finding `fragment-after-pixeldata-end`: the third "fragment" is the value of the element after Pixel Data -/
+theorem fragment_after_pixeldata_end_witness :
+    fragmentCalls 4 (Coll.new .explicitLE (fun _ => none) witnessTrailing) =
+      [some (0, []), some (2, [1, 2]), some (2, [9, 9]), none] := by
+  decide +kernel
 
 end Dicom.C06
